@@ -75,10 +75,11 @@ vXcY == S(<<"x", ",", "y">>)
 vXeY == S(<<"x", "=", "y">>)
 vXnY == S(<<"x", NL, "y">>)
 vDict == S(<<"a", "=", "x", ",", "b", "=", "y">>)            \* a whole header written as a dictionary
+vDict3 == S(<<"a", "=", "x", ",", "b", "=", "y", ",", "a", "b", "=", "x">>)
 vDictSp == S(<<"a", "=", "x", ",", " ", "a", "b", "=", Q, "x", " ", "y", Q>>)
 
-WholeVals == CASE Alphabet = "quick" -> {vX, vXsY, vE}
-               [] Alphabet = "thorough" -> {vX, vY, vE, vXsY, vXcY, vXeY, vXnY, NS, NULL, vDict, vDictSp}
+WholeVals == CASE Alphabet = "quick" -> {vX, vXsY, vE, vXnY, NULL, vDict3}
+               [] Alphabet = "thorough" -> {vX, vY, vE, vXsY, vXcY, vXeY, vXnY, NS, NULL, vDict, vDictSp, vDict3}
                [] OTHER -> {vX, vE, vXsY, NULL, vDict}
 FieldVals == CASE Alphabet = "quick" -> {vX, vXsY, vE}
                [] Alphabet = "thorough" -> {vX, vY, vE, vXsY, vXcY, vXeY, vXnY, NS, NULL}
